@@ -69,6 +69,10 @@ type PS struct {
 
 func (s *PS) Gx() int { return s.gxBacking }
 
+func CvProbe(i int) int { return i }
+
+func PostProbe(dst *PD, src *PS) {}
+
 type PD struct {
 	Plain     int
 	CaseProbe int
@@ -78,6 +82,10 @@ type PD struct {
 	SkA1      int
 	SkA2      int
 	SkB1      int
+	LtA       int
+	MpA       int
+	CvA       int
+	LtB       int
 }
 `
 
@@ -102,6 +110,10 @@ func c09Setup(o *optCase, methods []string, bFirst bool) string {
 		for _, m := range []string{"A1", "A2"} {
 			if has[m] {
 				a.WriteString(c09Lines("\t", o.Notes[m]))
+				if m == "A1" {
+					// list-valued and hook notations of A1 only: they must not reach A2 or B1
+					a.WriteString("\t// :literal LtA 11\n\t// :map Plain MpA\n\t// :conv CvProbe Plain CvA\n\t// :postprocess PostProbe\n")
+				}
 				fmt.Fprintf(&a, "\t// :skip Sk%s\n\t%s(*PS) *PD\n", m, m)
 			}
 		}
@@ -112,7 +124,7 @@ func c09Setup(o *optCase, methods []string, bFirst bool) string {
 		b.WriteString(c09Lines("", o.Notes["B"]))
 		b.WriteString("type B interface {\n")
 		b.WriteString(c09Lines("\t", o.Notes["B1"]))
-		b.WriteString("\t// :skip SkB1\n\tB1(*PS) *PD\n}\n\n")
+		b.WriteString("\t// :literal LtB 5\n\t// :skip SkB1\n\tB1(*PS) *PD\n}\n\n")
 	}
 	head := "//go:build convergen\n\npackage p\n\n"
 	if bFirst {
@@ -191,6 +203,26 @@ func c09Observe(fn *project.Func, method string, want map[string]string) (diffs 
 			diffs = append(diffs, fmt.Sprintf("%s: effective %s, required %s", p.setting, eff, want[p.setting]))
 		}
 	}
+	// list-valued and hook notations belong to the method that carries them
+	own := map[string]string{"LtA": "A1", "MpA": "A1", "CvA": "A1", "LtB": "B1"}
+	for f, m := range own {
+		o, _ := kind("DST." + f)
+		if m != method && o.K != "nomatch" {
+			diffs = append(diffs, fmt.Sprintf("a notation of method %s on field %s leaked into %s (%s)", m, f, method, o.K))
+		}
+		if m == method && o.K == "nomatch" {
+			diffs = append(diffs, fmt.Sprintf("the method's own notation on field %s is not honoured", f))
+		}
+	}
+	hooks := 0
+	for _, st := range fn.Body {
+		if st.Kind == "hook" {
+			hooks++
+		}
+	}
+	if (method == "A1") != (hooks == 1) {
+		diffs = append(diffs, fmt.Sprintf("%d hook call(s) in %s; the :postprocess notation belongs to A1 only", hooks, method))
+	}
 	// list notations: exactly this method's own :skip
 	for _, m := range []string{"A1", "A2", "B1"} {
 		o, _ := kind("DST.Sk" + m)
@@ -207,6 +239,9 @@ func c09Observe(fn *project.Func, method string, want map[string]string) (diffs 
 
 // C09 runs the scoping check.
 func C09(c *core.Ctx) {
+	if c.Replay != "" {
+		replayUnsupported(c)
+	}
 	// vacuity check of the model-level invariant: the aliasing variant must violate Scope
 	al := core.RunTLC(c.Scratch, core.TLCRun{Module: "Options", Config: "MCOptionsAliased.cfg", Workers: 4})
 	if al.OK || !strings.Contains(al.Violated, "Scope") {
